@@ -35,6 +35,29 @@ def ecdsaRaw (c : Curve) (n : Nat) (a : HashAlg) (enc : String) (qx qy : Nat) (s
 
 def b01 (b : Bool) : String := if b then "1" else "0"
 
+/-- Message argument of the SLH-DSA `…x` ops (LARGE MESSAGES section of c16): an ordinary token or the compact
+    `@<len>:<seedhex>` of `Driver.Sym.genTok?` (byte i = seed[i mod |seed|] + i + (i >> 8)), optionally followed by any
+    number of `^<pos>:<hh>` (xor the byte `hh` into position `pos`; out of range = malformed). -/
+def slhMsgTok? (s : String) : Option ByteArray :=
+  match s.splitOn "^" with
+  | [] => none
+  | base :: muts => do
+    let mut a := ba (← genTok? base)
+    for m in muts do
+      match m.splitOn ":" with
+      | [pos, x] =>
+        let i ← pos.toNat?
+        match (← bytesOfTok? x) with
+        | [v] => if i < a.size then a := a.set! i (a.get! i ^^^ v) else failure
+        | _ => failure
+      | _ => failure
+    pure a
+
+/-- `md idx_tree idx_leaf base_2^a(md)` of a message digest, as text. -/
+def slhSplitText (p : Slhdsa.Params) (digest : ByteArray) : String :=
+  let (md, t, l) := Slhdsa.digestSplit p digest
+  s!"{hx digest} {hx md} {t} {l} {Driver.showNatList (Slhdsa.base2b md p.a p.k).toList}"
+
 def handle (toks : List String) : Option String :=
   match toks with
   | ["ecdsa", cv, h, enc, v, id, qx, qy, msg, sig] => do
@@ -105,6 +128,38 @@ def handle (toks : List String) : Option String :=
     let p ← Slhdsa.Params.ofName? name
     let (md, t, l) := Slhdsa.digestSplit p (ba (← bytesOfTok? digest))
     pure s!"{hx md} {t} {l}"
+  -- ---------- the external interface (Algorithms 22 / 24) with compact message tokens: LARGE MESSAGES of c16 ----------
+  | ["slhverifyx", name, pk, ctx, msg, sig] => do
+    let p ← Slhdsa.Params.ofName? name
+    pure (b01 (Slhdsa.verify p (← slhMsgTok? msg) (ba (← bytesOfTok? sig)) (ba (← bytesOfTok? ctx)) (ba (← bytesOfTok? pk))))
+  | ["slhsignx", name, sk, ctx, msg, addrnd] => do
+    let p ← Slhdsa.Params.ofName? name
+    match Slhdsa.sign p (← slhMsgTok? msg) (ba (← bytesOfTok? ctx)) (ba (← bytesOfTok? sk)) (ba (← bytesOfTok? addrnd)) with
+    | some sig => pure (if sig.size == 0 then "err" else s!"ok {hx sig}")
+    | none => pure "err"
+  -- the message-dependent part of slh_sign: R = PRF_msg(SK.prf, addrnd, M'), digest = H_msg(R, PK.seed, PK.root, M') and its split
+  | ["slhdigestx", name, sk, addrnd, ctx, msg] => do
+    let p ← Slhdsa.Params.ofName? name
+    let sk := ba (← bytesOfTok? sk)
+    let addrnd := ba (← bytesOfTok? addrnd)
+    let n := p.n
+    if sk.size ≠ 4 * n ∨ addrnd.size ≠ n then pure "err" else
+    match Slhdsa.formatMessage (ba (← bytesOfTok? ctx)) (← slhMsgTok? msg) with
+    | none => pure "err"
+    | some m' =>
+      let hf := p.hashFamily
+      let r := hf.PRFmsg (sk.extract n (2 * n)) addrnd m'
+      pure s!"ok {hx r} {slhSplitText p (hf.Hmsg r (sk.extract (2 * n) (3 * n)) (sk.extract (3 * n) (4 * n)) m')}"
+  -- the message-dependent part of slh_verify: digest = H_msg(R, PK.seed, PK.root, M') for a given R, and its split
+  | ["slhhmsgx", name, pk, r, ctx, msg] => do
+    let p ← Slhdsa.Params.ofName? name
+    let pk := ba (← bytesOfTok? pk)
+    let r := ba (← bytesOfTok? r)
+    let n := p.n
+    if pk.size ≠ 2 * n ∨ r.size ≠ n then pure "err" else
+    match Slhdsa.formatMessage (ba (← bytesOfTok? ctx)) (← slhMsgTok? msg) with
+    | none => pure "err"
+    | some m' => pure s!"ok {slhSplitText p (p.hashFamily.Hmsg r (pk.extract 0 n) (pk.extract n (2 * n)) m')}"
   | _ => none
 
 end Driver.Sg
